@@ -26,7 +26,7 @@ import (
 
 // c07Faults is the catalogue: name -> injection point.
 var c07Faults = []struct{ Point, Kind string }{
-	{"list", "500"}, {"list", "404"}, {"list", "garbage-json"}, {"list", "non-string-json"}, {"list", "oversized"}, {"list", "reset"}, {"list", "null-ids"},
+	{"list", "500"}, {"list", "404"}, {"list", "garbage-json"}, {"list", "non-string-json"}, {"list", "oversized"}, {"list", "reset"}, {"list", "null-ids"}, {"list", "blank-body"}, {"list", "empty-body"}, {"list", "bom-json"}, {"list", "html-200"},
 	{"fetch", "reset-before-headers-x3"}, {"fetch", "close-before-headers-x3"}, {"fetch", "reset-x2-then-ok"},
 	{"fetch", "404"}, {"fetch", "500x3"}, {"fetch", "500x2-then-ok"}, {"fetch", "not-http"}, {"fetch", "no-start-time"}, {"fetch", "truncated-body"}, {"fetch", "reset-mid-body"},
 	{"backend", "refused"},
@@ -275,6 +275,15 @@ func c07Lane_(r *core.Run, agentBin string, md *fakes.Metadata, li int, ln c07La
 			w.Write([]byte(`[1, 2, {"a": null}]`))
 		case "null-ids":
 			w.Write([]byte(`[null, "", "no-such-id"]`))
+		case "blank-body":
+			w.Write([]byte("\r\n")) // a 200 whose body is white space only
+		case "empty-body":
+			w.WriteHeader(200)
+		case "bom-json":
+			w.Write([]byte("\ufeff[]"))
+		case "html-200":
+			w.Header().Set("Content-Type", "text/html")
+			w.Write([]byte("  <html><body>Sign in to continue</body></html>\n")) // a captive portal / login page answering 200
 		case "oversized":
 			w.Write([]byte(`["` + strings.Repeat("x", 1100000) + `"]`))
 		case "reset":
@@ -568,6 +577,56 @@ func c07Lane_(r *core.Run, agentBin string, md *fakes.Metadata, li int, ln c07La
 				}
 			}(lane)
 		}
+	}
+	// ... and "job" sessions: the backend sends three results and ends the session normally while the client is not polling;
+	// the client collects the results a moment later, whatever happened to other sessions in between
+	var jobSessions int64
+	if ln.shim {
+		pwg.Add(1)
+		go func() {
+			defer pwg.Done()
+			for i := 0; ; i++ {
+				select {
+				case <-stop:
+					return
+				default:
+				}
+				during, _ := current.Load().(string)
+				tag := fmt.Sprintf("job%ds%di%d", li, r.Seed, i)
+				up, ok := shimCall(tag+"-open", "/shim/open", "ws://x/ws/echo/job-then-close/"+tag, rawhttp.Field{Name: "X-Websocket-Shim-Version", Value: "1"})
+				if !ok || up.Resp.Status != 200 {
+					time.Sleep(50 * time.Millisecond) // (failed opens are the other shim lanes' business)
+					continue
+				}
+				var om struct {
+					ID string `json:"id"`
+				}
+				json.Unmarshal(up.Resp.Body, &om)
+				time.Sleep(350 * time.Millisecond)
+				var collected []interface{}
+				for k := 0; k < 6 && len(collected) < 3; k++ {
+					up, ok := shimCall(fmt.Sprintf("%s-p%d", tag, k), "/shim/poll", fmt.Sprintf(`{"id":%q}`, om.ID))
+					if !ok {
+						break // no answer at all: the probes' business
+					}
+					if up.Resp.Status != 200 {
+						after, _ := current.Load().(string)
+						r.Violate("C07:healthy-shim-session-disturbed:"+ln.name+":results-lost:during="+during, fmt.Sprintf("shim session %s (opened during fault [%s], polled during [%s]): its backend had sent three results and closed normally; poll %d was answered %d %q after only %d results had been delivered", om.ID, during, after, k, up.Resp.Status, core.Trunc(string(up.Resp.Body), 120), len(collected)), nil, nil)
+						break
+					}
+					var got []interface{}
+					json.Unmarshal(up.Resp.Body, &got)
+					collected = append(collected, got...)
+				}
+				for k, m := range collected {
+					if k < 3 && m != fmt.Sprintf("%s-r%d", tag, k) {
+						r.Violate("C07:healthy-shim-session-disturbed:"+ln.name+":results-altered:during="+during, fmt.Sprintf("shim session %s: result %d arrived as %v", om.ID, k, m), nil, nil)
+					}
+				}
+				shimCall(tag+"-close", "/shim/close", fmt.Sprintf(`{"id":%q}`, om.ID))
+				atomic.AddInt64(&jobSessions, 1)
+			}
+		}()
 	}
 	// wait until the lanes work
 	deadline := time.Now().Add(30 * time.Second)
@@ -883,6 +942,7 @@ func c07Lane_(r *core.Run, agentBin string, md *fakes.Metadata, li int, ln c07La
 	}
 	r.Add("healthy_probes", int(atomic.LoadInt64(&probes)))
 	r.Add("healthy_shim_sessions", int(atomic.LoadInt64(&shimProbes)))
+	r.Add("job_sessions_whose_results_were_collected_after_the_backend_closed", int(atomic.LoadInt64(&jobSessions)))
 	r.Add("client_bursts_into_stalled_then_closed_sessions", int(atomic.LoadInt64(&stallBursts)))
 	r.Add("fault_injections", inj)
 	r.Set("statuses_of_faulty_requests_"+ln.name, statusSeen)
